@@ -1962,5 +1962,313 @@ def cmd_digest(args):
 CMDS["digest"] = cmd_digest
 
 
+
+# ---------------------------------------------------------------------------
+# C11 hostile inputs under process observers
+
+
+class StepBudget(BaseException):
+    """Raised by the step monitor; deliberately not an Exception subclass."""
+
+
+class Observers:
+    def __init__(self, repo):
+        self.repo = os.path.realpath(repo)
+        self.active = False
+        self.events = []
+        self.input = b""
+        self.steps = 0
+        self.budget = 1 << 60
+        self.mode = None
+        sys.addaudithook(self._audit)
+        self.allowed_imports = None
+
+    # -- audit events
+    def _stack_is_traceback_rendering(self):
+        f = sys._getframe(2)
+        n = 0
+        while f is not None and n < 60:
+            fn = f.f_code.co_filename
+            if fn.endswith(("traceback.py", "linecache.py", "tokenize.py", "ast.py")) and "/xdis/" not in fn:
+                return True
+            f = f.f_back
+            n += 1
+        return False
+
+    def _audit(self, event, a):
+        if not self.active:
+            return
+        try:
+            if event in ("exec", "compile"):
+                src = a[0] if a else None
+                text = b""
+                if isinstance(src, (bytes, bytearray)):
+                    text = bytes(src)
+                elif isinstance(src, str):
+                    text = src.encode("utf-8", "replace")
+                benign = self._stack_is_traceback_rendering()
+                if benign and len(text) >= 8 and text.strip() and text.strip() in self.input:
+                    benign = False
+                if event == "exec" and not isinstance(src, (str, bytes, bytearray)):
+                    # exec of a code object: benign only for import machinery of stdlib modules
+                    fn = getattr(src, "co_filename", "")
+                    benign = not fn.startswith(self.repo + "/test") and ("/lib/python" in fn or fn.startswith(self.repo + "/xdis") or fn.startswith("<frozen"))
+                if not benign:
+                    self.events.append(("code-execution:" + event, repr(src)[:120]))
+            elif event == "import":
+                name = a[0]
+                top = name.split(".")[0]
+                std = getattr(sys, "stdlib_module_names", None)
+                if top == "xdis" or (std is not None and top in std) or top in ("_frozen_importlib", "_frozen_importlib_external"):
+                    return
+                if std is None:
+                    return  # cannot judge on hosts without sys.stdlib_module_names
+                self.events.append(("import:" + top, name))
+            elif event == "open":
+                path, mode, flags = a[0], a[1], a[2]
+                writing = False
+                if isinstance(mode, str) and any(c in mode for c in "wax+"):
+                    writing = True
+                if isinstance(flags, int) and flags & (os.O_WRONLY | os.O_RDWR | os.O_CREAT | os.O_TRUNC | os.O_APPEND):
+                    writing = True
+                if writing:
+                    self.events.append(("open-for-write", "%r %r" % (path, mode)))
+            elif event in ("os.remove", "os.rename", "os.mkdir", "os.rmdir", "os.chmod", "os.chown", "os.symlink", "os.link",
+                           "os.truncate", "shutil.rmtree", "shutil.move", "shutil.copyfile", "os.system", "subprocess.Popen",
+                           "os.exec", "os.posix_spawn", "os.fork", "socket.connect", "socket.bind", "socket.__new__",
+                           "urllib.Request", "ctypes.dlopen", "marshal.loads", "pickle.find_class"):
+                if event == "marshal.loads":
+                    return  # the native fast path is part of load_module
+                self.events.append((event, repr(a)[:120]))
+        except Exception:
+            pass
+
+    # -- logical step counter
+    def start_steps(self):
+        mon = getattr(sys, "monitoring", None)
+        if mon is not None:
+            self.mode = "sys.monitoring"
+            tid = mon.DEBUGGER_ID
+            try:
+                mon.use_tool_id(tid, "verif-steps")
+            except ValueError:
+                pass
+            E = mon.events
+            obs = self
+
+            def on_start(code, off):
+                if not code.co_filename.startswith(obs.repo):
+                    return mon.DISABLE
+                obs.steps += 1
+                if obs.steps > obs.budget and obs.active:
+                    obs.budget = 1 << 60
+                    raise StepBudget()
+
+            def on_jump(code, off, dst):
+                if not code.co_filename.startswith(obs.repo):
+                    return mon.DISABLE
+                obs.steps += 1
+                if obs.steps > obs.budget and obs.active:
+                    obs.budget = 1 << 60
+                    raise StepBudget()
+
+            mon.register_callback(tid, E.PY_START, on_start)
+            mon.register_callback(tid, E.JUMP, on_jump)
+            mon.register_callback(tid, E.BRANCH, on_jump)
+            mon.set_events(tid, E.PY_START | E.JUMP | E.BRANCH)
+        else:
+            # No step counter on hosts without sys.monitoring: a sys.setprofile
+            # callback adds Python frames while the interpreter is unwinding a
+            # RecursionError, which on 3.8/3.9 turns a clean RecursionError
+            # into "Fatal Python error: Cannot recover from stack overflow" -
+            # a crash manufactured by the monitor, not by xdis (observed and
+            # corrected; see DESIGN.md s8).  Steps are judged on the 3.12 host.
+            self.mode = "none"
+
+
+def raise_site(tb, repo):
+    """Innermost frame inside the repository (mechanism, not case)."""
+    site = None
+    for fr in traceback.extract_tb(tb):
+        if "/xdis/" in fr.filename:
+            site = "%s:%s" % (os.path.basename(fr.filename), fr.name)
+    return site or "?"
+
+
+def cmd_hostile(args):
+    import random
+    import tracemalloc
+
+    from vf.gen import mutate as MU
+    from xdis.load import load_module
+
+    acc = Acc()
+    rng = random.Random("%s|%s" % (args["seed"], args["part"]))
+    try:
+        # keep a hostile length field from really consuming the machine: an
+        # allocation beyond this fails with MemoryError inside the call
+        import resource
+
+        lim = args.get("rlimit_as", 4 << 30)
+        resource.setrlimit(resource.RLIMIT_AS, (lim, lim))
+        acc.count("c11_rlimit_as_bytes", lim)
+    except Exception:
+        pass
+    from xdis.magics import PYTHON_MAGIC_INT
+    import struct as _struct
+    obs = Observers(REPO)
+    obs.start_steps()
+    acc.count("c11_step_counter_" + obs.mode.replace(".", "_"))
+    workdir = args["workdir"]
+    os.makedirs(workdir, exist_ok=True)
+    case_path = os.path.join(workdir, "case.pyc")
+    a_steps, b_steps = args.get("steps_per_byte", 60), args.get("steps_base", 50000)
+    c_mem, d_mem = args.get("mem_per_byte", 200), args.get("mem_base", 16 << 20)
+    valid_digests = set()
+
+    def cases():
+        if args.get("nonbytecode"):
+            for c in MU.non_bytecode(rng):
+                yield c
+        if args.get("adversarial"):
+            for c in MU.adversarial(rng, big=args.get("big", False)):
+                yield c
+        for sp in args["seeds"]:
+            with open(sp, "rb") as f:
+                data = f.read()
+            valid_digests.add(sha(data))
+            yield "valid", data
+            for c in MU.prefixes(data, rng, args["prefix_limit"]):
+                yield c
+            n = len(data)
+            k = min(n, args["positions"])
+            pos = list(range(n)) if k >= n else sorted(set([0, 1, 2, 3, 4, 5, 6, 7, 8, 12, 16, 17, 20] + [rng.randrange(n) for _ in range(k)]))
+            pos = [p for p in pos if p < n]
+            for c in MU.byte_mutations(data, rng, pos):
+                yield c
+            for c in MU.insert_delete(data, rng, args["insdel"]):
+                yield c
+
+    ncase = 0
+    maxratio = 0.0
+    for label, data in cases():
+        ncase += 1
+        with open(case_path, "wb") as f:
+            f.write(data)
+        before = set(os.listdir(workdir))
+        obs.input = data
+        obs.events = []
+        obs.steps = 0
+        obs.budget = a_steps * len(data) + b_steps
+        trace_mem = label.startswith("adversarial") or ncase % 25 == 0
+        if trace_mem:
+            tracemalloc.start()
+        outcome = None
+        err = None
+        obs.active = True
+        try:
+            try:
+                r = load_module(case_path)
+                outcome = "tuple" if isinstance(r, tuple) and len(r) == 7 else "other-return:%s" % type(r).__name__
+            except ImportError:
+                outcome = "ImportError"
+            except StepBudget:
+                outcome = "step-budget"
+            except BaseException as e:
+                if isinstance(e, KeyboardInterrupt):
+                    raise
+                outcome = "escape"
+                err = (type(e).__name__, raise_site(sys.exc_info()[2], REPO), str(e)[:120])
+        finally:
+            obs.active = False
+        peak = None
+        if trace_mem:
+            peak = tracemalloc.get_traced_memory()[1]
+            tracemalloc.stop()
+        steps = obs.steps
+        after = set(os.listdir(workdir))
+        acc.evaluations += 1
+        acc.count("outcome:" + outcome)
+        cls = label.split(":v")[0] if label.startswith("adversarial") else label.split("-")[0] if label.startswith("nonbytecode:magic") else label
+        if label != "valid" and sha(data) not in valid_digests:
+            acc.distinct.add(sha(data))
+        wit = {"class": label, "size": len(data), "hex_head": C.hexs(data[:48])}
+        if outcome == "escape":
+            acc.mismatch("C11|escape:%s@%s" % (err[0], err[1]), msg=err[2], **wit)
+        elif outcome.startswith("other-return"):
+            acc.mismatch("C11|%s" % outcome, **wit)
+        elif outcome == "step-budget":
+            acc.mismatch("C11|step-budget-exceeded|%s" % cls, budget=a_steps * len(data) + b_steps, **wit)
+        if len(data):
+            maxratio = max(maxratio, steps / float(len(data) + 1000))
+        if peak is not None:
+            acc.count("c11_memory_traced_cases")
+            if peak > c_mem * len(data) + d_mem:
+                native = len(data) >= 2 and _struct.unpack("<H", data[:2])[0] == PYTHON_MAGIC_INT
+                acc.mismatch("C11|memory-bound-exceeded|%s|%s" % ("native-marshal-fast-path" if native else "xdis-unmarshaller", cls),
+                             peak=peak, bound=c_mem * len(data) + d_mem, **wit)
+        for ev, info in obs.events:
+            acc.mismatch("C11|audit:%s" % ev, info=info, **wit)
+        if after != before:
+            acc.mismatch("C11|filesystem-changed", new=sorted(after - before)[:5], gone=sorted(before - after)[:5], **wit)
+        if outcome == "ImportError" and "RecursionError" in "":
+            pass
+        if len(acc.samples) < 4 and label not in ("valid",) and ncase % 7 == 0:
+            acc.sample({"class": label, "size": len(data), "outcome": outcome, "steps": steps})
+    acc.counters["c11_max_steps_per_byte_x1000"] = int(maxratio * 1000)
+    try:
+        os.unlink(case_path)
+    except OSError:
+        pass
+    return acc.result()
+
+
+CMDS["hostile"] = cmd_hostile
+
+
+def cmd_scaling(args):
+    """Growth of CPU time of load_module on n-element containers of 1-byte
+    objects: doubling n must not (consistently) more than triple the time."""
+    import time
+
+    from vf.gen import mutate as MU
+    from xdis.load import load_module
+
+    acc = Acc()
+    make = MU.big_containers(tuple(args.get("version", (3, 8))))
+    workdir = args["workdir"]
+    os.makedirs(workdir, exist_ok=True)
+    p = os.path.join(workdir, "scale.pyc")
+    for code in args["codes"]:
+        times = []
+        for n in args["sizes"]:
+            with open(p, "wb") as f:
+                f.write(make(code, n))
+            best = None
+            for _ in range(2):
+                t = time.process_time()
+                try:
+                    load_module(p)
+                except ImportError:
+                    pass
+                dt = time.process_time() - t
+                best = dt if best is None else min(best, dt)
+            times.append(best)
+        acc.evaluations += 1
+        ratios = [times[i + 1] / max(times[i], 1e-4) for i in range(len(times) - 1)]
+        acc.sample({"type_code": code, "sizes": args["sizes"], "cpu_s": [round(t, 3) for t in times], "ratios": [round(r, 2) for r in ratios]}, limit=20)
+        acc.distinct.add(sha(["scaling", code]))
+        if len(ratios) >= 2 and all(r > 3.0 for r in ratios[-2:]) and times[-1] > 0.5:
+            acc.mismatch("C11|superlinear-time|container:%s" % code, sizes=args["sizes"], cpu_s=[round(t, 3) for t in times])
+    try:
+        os.unlink(p)
+    except OSError:
+        pass
+    return acc.result()
+
+
+CMDS["scaling"] = cmd_scaling
+
+
 if __name__ == "__main__":
     main()
